@@ -1,11 +1,20 @@
 //! Property registry
 pub mod c03;
 pub mod c05;
+pub mod c07;
+pub mod c08;
+pub mod c09;
+pub mod c10;
 pub mod c12;
+pub mod c13;
+pub mod c14;
+pub mod c15;
 pub mod c16;
 pub mod c17;
+pub mod c19;
 pub mod c20;
 pub mod golden;
+pub mod hist;
 pub mod poswalk;
 
 use crate::runner::DynProp;
@@ -19,8 +28,18 @@ pub fn all() -> Vec<Box<dyn DynProp>> {
         Box::new(c03::C03),
         Box::new(c05::C05::new()),
         Box::new(c16::C16),
+        Box::new(hist::Hist { which: hist::Which::C06 }),
+        Box::new(hist::Hist { which: hist::Which::C18 }),
+        Box::new(c07::C07),
+        Box::new(c08::C08),
+        Box::new(c09::C09),
+        Box::new(c10::C10),
         Box::new(c12::C12),
+        Box::new(c13::C13),
+        Box::new(c14::C14),
+        Box::new(c15::C15),
         Box::new(c17::C17),
+        Box::new(c19::C19),
         Box::new(c20::C20),
     ]
 }
